@@ -168,7 +168,7 @@ fn enumerate(kind: &str, seed: &[u8], thorough: bool, out: &mut Vec<Input>) {
                 let mut a = w.clone();
                 a.meta.clear();
                 out.push(Input { kind: kind.into(), bytes: a.encode(), class: "zero:no-metadata".into(), changes_count: true });
-                for n in 0..a.meta.len().min(30) {
+                for n in 0..w.meta.len().min(30) {
                     let mut a = w.clone();
                     a.meta.truncate(n);
                     out.push(Input { kind: kind.into(), bytes: a.encode(), class: "metadata-truncated".into(), changes_count: true });
